@@ -308,6 +308,9 @@ func (w *clientWorld) generate() {
 	prop := w.rc.Prop
 	w.genBackoff()
 	w.maxAtt = ch.Range(2, 10, "attempt limit")
+	if prop != "C13" && ch.Chance(1, 25, "very long history") {
+		w.maxAtt = ch.Range(20, 40, "long attempt limit") // dozens of attempts on one connection
+	}
 	w.validator = ch.Weighted([]int{6, 2, 2, 2}, "validator")
 	if w.useDefault {
 		w.validator = 0
